@@ -511,42 +511,89 @@ def fixenv():
                    HeaderCls=fm.Header, BodyCls=fm.DataSegment_1, TrailerCls=fm.Trailer):
         ...
 
-    _FIX.update(fix=fix, fm=fm, Order=C10Order)
+    # a message whose header and trailer carry application-set text too (optional fields and a repeating group in the header, an
+    # optional text field in the trailer): every segment can be the one that cannot be serialised
+    class C10OnBehalfOfCompID(fix.Field, Tag=115, Name='C10OnBehalfOfCompID', Type=fix.FixString):
+        ...
+
+    class C10NoHops(fix.Field, Tag=627, Name='C10NoHops', Type=fix.FixInt):
+        ...
+
+    class C10HopRefID(fix.Field, Tag=630, Name='C10HopRefID', Type=fix.FixInt):
+        ...
+
+    class C10HopCompID(fix.Field, Tag=628, Name='C10HopCompID', Type=fix.FixString):
+        ...
+
+    class C10SignatureText(fix.Field, Tag=89, Name='C10SignatureText', Type=fix.FixString):
+        ...
+
+    class C10Hop(fix.Group):
+        Entries = [fix.Entry(C10HopRefID, True), fix.Entry(C10HopCompID, False)]
+
+    class C10Hops(fix.GroupContainer, CountCls=C10NoHops, GroupCls=C10Hop):
+        ...
+
+    class C10Header(fix.DataSegment):
+        Entries = list(fm.Header.Entries) + [fix.Entry(C10OnBehalfOfCompID, False), fix.Entry(C10Hops, False)]
+
+    class C10Trailer(fix.DataSegment):
+        Entries = list(fm.Trailer.Entries) + [fix.Entry(C10SignatureText, False)]
+
+    class C10Wide(fix.Message, Name='C10Wide', Type='W', Category='app',
+                  HeaderCls=C10Header, BodyCls=fm.DataSegment_1, TrailerCls=C10Trailer):
+        ...
+
+    _FIX.update(fix=fix, fm=fm, Order=C10Order, Wide=C10Wide)
     return _FIX
 
 
 def fix_build(spec, comp_ascii=True):
     """message spec -> (message object, valid, encodable)   [valid / encodable computed here, not by the library]
-    spec = {'cls': 'Login'|'Nope'|'Order'|'Heartbeat', 'user': str|None, 'f1': int|None, 'f2': str|None, 'group': [..]|None}"""
+    spec = {'cls': 'Login'|'Nope'|'Order'|'Wide'|'Heartbeat', 'user': str|None, 'f1': int|None, 'f2': str|None, 'group': [..]|None,
+            'hdr': {field name: value} (application-set header fields; every class has the optional TargetSubID, Wide also
+            C10OnBehalfOfCompID), 'hops': [[ref, comp|None]..] (Wide: repeating group in the header), 'trl': {C10SignatureText: text}}"""
+    msg, valid, segs = fix_build_segments(spec, comp_ascii)
+    return msg, valid, all(segs)
+
+
+def fix_build_segments(spec, comp_ascii=True):
+    """-> (message object, body valid, (header encodable, body encodable, trailer encodable))"""
     env = fixenv()
     fix, fm = env['fix'], env['fm']
     seg = fix.MessageSegments
-    cls = {'Login': fm.Login, 'Nope': fm.Nope, 'Heartbeat': fm.Heartbeat, 'Order': env['Order']}[spec['cls']]
+    cls = {'Login': fm.Login, 'Nope': fm.Nope, 'Heartbeat': fm.Heartbeat, 'Order': env['Order'], 'Wide': env['Wide']}[spec['cls']]
     body = {}
-    texts = []
-    if spec['cls'] == 'Order':
+    texts = {'hdr': [], 'body': [], 'trl': []}
+    if spec['cls'] in ('Order', 'Wide'):
         if spec.get('f1') is not None:
             body['Field_1_Int'] = spec['f1']
         if spec.get('f2') is not None:
             body['Field_2_Str'] = spec['f2']
-            texts.append(spec['f2'])
+            texts['body'].append(spec['f2'])
         if spec.get('group') is not None:
             body['Field_22_Int'] = [dict(Field_1_Int=g[0], **({'Field_2_Str': g[1]} if g[1] is not None else {}))
                                     for g in spec['group']]
-            texts += [g[1] for g in spec['group'] if g[1] is not None]
+            texts['body'] += [g[1] for g in spec['group'] if g[1] is not None]
         valid = spec.get('f1') is not None and spec.get('f2') is not None
     else:
         if spec.get('user') is not None:
             body['Username'] = spec['user']
-            texts.append(spec['user'])
+            texts['body'].append(spec['user'])
         valid = True
-    hdr = {}
+    hdr, trl = {}, {}
     if spec.get('hdr'):
         hdr = dict(spec['hdr'])
-        texts += [v for v in hdr.values() if isinstance(v, str)]
-    msg = cls({seg.HEADER: hdr, seg.BODY: body})
-    encodable = all(t.isascii() for t in texts) and comp_ascii
-    return msg, valid, encodable
+        texts['hdr'] += [v for v in hdr.values() if isinstance(v, str)]
+    if spec.get('hops') is not None:
+        hdr['C10NoHops'] = [dict(C10HopRefID=g[0], **({'C10HopCompID': g[1]} if g[1] is not None else {})) for g in spec['hops']]
+        texts['hdr'] += [g[1] for g in spec['hops'] if g[1] is not None]
+    if spec.get('trl'):
+        trl = dict(spec['trl'])
+        texts['trl'] += [v for v in trl.values() if isinstance(v, str)]
+    msg = cls({seg.HEADER: hdr, seg.BODY: body, seg.TRAILER: trl} if trl else {seg.HEADER: hdr, seg.BODY: body})
+    enc = tuple(all(t.isascii() for t in texts[k]) for k in ('hdr', 'body', 'trl'))
+    return msg, valid, (enc[0] and comp_ascii, enc[1], enc[2])
 
 
 def tag34(frame):
@@ -584,23 +631,48 @@ def logon_reply_frame(begin=b'FIX.4.4', mtype=b'L'):
 
 
 def gen_fix_msg(rng):
+    """a message for send_msg: accepted / rejected by validation (a required body field missing) / valid but not serialisable —
+    and then the text that cannot be encoded sits in the body, in a body group instance, in an application-set HEADER field, in
+    a header group instance or in the TRAILER (each alone and combined; also together with a body that fails validation)"""
     c = rng.random()
     bad_txt = lambda: rng.choice(['café', '€', 'naïve', '中'])
-    if c < 0.30:
-        return {'cls': rng.choice(['Login', 'Nope']), 'user': rng.choice([None, 'user', 'x y'])}
-    if c < 0.40:
-        return {'cls': rng.choice(['Login', 'Nope']), 'user': bad_txt()}
-    if c < 0.58:
-        return {'cls': 'Order', 'f1': rng.randint(-5, 99), 'f2': rng.choice(['abc', '', 'x=y'])}
-    if c < 0.66:
+    good_hdr = lambda: rng.choice([None, None, {'TargetSubID': 'DESK'}])
+    if c < 0.22:
+        m = {'cls': rng.choice(['Login', 'Nope']), 'user': rng.choice([None, 'user', 'x y'])}
+    elif c < 0.29:
+        m = {'cls': rng.choice(['Login', 'Nope']), 'user': bad_txt()}
+    elif c < 0.43:
+        m = {'cls': rng.choice(['Order', 'Wide']), 'f1': rng.randint(-5, 99), 'f2': rng.choice(['abc', '', 'x=y'])}
+    elif c < 0.50:
         g = [[rng.randint(0, 9), rng.choice([None, 'g'])] for _ in range(rng.randint(0, 2))]
-        return {'cls': 'Order', 'f1': 1, 'f2': 'grp', 'group': g}
-    if c < 0.82:     # rejected by validation (a required body field missing)
-        return {'cls': 'Order', 'f1': rng.choice([None, 7]), 'f2': None if rng.random() < 0.6 else 'z'} \
-            if rng.random() < 0.5 else {'cls': 'Order', 'f1': None, 'f2': rng.choice([None, 'only2', bad_txt()])}
-    if c < 0.92:     # valid, cannot be encoded
-        return {'cls': 'Order', 'f1': 3, 'f2': bad_txt()}
-    return {'cls': 'Order', 'f1': 4, 'f2': 'ok', 'group': [[1, bad_txt()]]}
+        m = {'cls': rng.choice(['Order', 'Wide']), 'f1': 1, 'f2': 'grp', 'group': g}
+    elif c < 0.64:     # rejected by validation (a required body field missing)
+        m = {'cls': rng.choice(['Order', 'Wide']), 'f1': rng.choice([None, 7]), 'f2': None if rng.random() < 0.6 else 'z'} \
+            if rng.random() < 0.5 else {'cls': rng.choice(['Order', 'Wide']), 'f1': None, 'f2': rng.choice([None, 'only2', bad_txt()])}
+        if rng.random() < 0.25:      # …and a header / trailer that could not be serialised either: still "rejected", nothing consumed
+            m['hdr'] = {'TargetSubID': bad_txt()}
+    elif c < 0.71:     # valid, body cannot be encoded
+        m = {'cls': rng.choice(['Order', 'Wide']), 'f1': 3, 'f2': bad_txt()}
+    elif c < 0.76:     # … inside a body group instance
+        m = {'cls': rng.choice(['Order', 'Wide']), 'f1': 4, 'f2': 'ok', 'group': [[1, 'g']] * rng.randint(0, 1) + [[1, bad_txt()]]}
+    elif c < 0.86:     # valid body, an application-set header field cannot be encoded (every message class has TargetSubID)
+        m = rng.choice([{'cls': rng.choice(['Login', 'Nope']), 'user': rng.choice([None, 'user'])},
+                        {'cls': rng.choice(['Order', 'Wide']), 'f1': 5, 'f2': 'hdr'}])
+        m['hdr'] = {'TargetSubID': bad_txt()}
+    else:              # the wide message: header field / header group instance / trailer
+        m = {'cls': 'Wide', 'f1': 6, 'f2': 'wide'}
+        where = rng.choice(['hdr', 'hops', 'trl', 'trl', 'hdr+trl', 'none'])
+        if 'hdr' in where:
+            m['hdr'] = {'C10OnBehalfOfCompID': bad_txt()}
+        if where == 'hops':
+            m['hops'] = [[1, 'HOP']] * rng.randint(0, 1) + [[2, bad_txt()]]
+        if 'trl' in where:
+            m['trl'] = {'C10SignatureText': bad_txt()}
+        if where == 'none':
+            m.update(hdr={'C10OnBehalfOfCompID': 'FIRM'}, hops=[[1, 'HOP'], [2, None]], trl={'C10SignatureText': 'sig'})
+    if 'hdr' not in m and good_hdr():
+        m['hdr'] = {'TargetSubID': 'DESK'}
+    return m
 
 
 def gen_fix_history(rng, n):
@@ -613,6 +685,8 @@ def gen_fix_history(rng, n):
         h['logon']['hdr']['SenderSubID'] = 'SUB'
     if rng.random() < 0.05:
         h['logon']['user'] = 'café'            # the logon itself cannot be encoded
+    elif rng.random() < 0.03:
+        h['logon']['hdr']['TargetSubID'] = 'café'      # … because of an application-set header field
     if rng.random() < 0.25:
         h['pre'] = [gen_fix_msg(rng) for _ in range(rng.randint(1, 2))]
     resend = None
@@ -658,22 +732,24 @@ def run_fix_history(h):
             before = len(tr.writes)
             err = 'none'
             try:
-                msg, valid, enc = fix_build(spec, comp_ascii)
+                msg, valid, segs = fix_build_segments(spec, comp_ascii)
+                enc = all(segs)
             except Exception as e:  # noqa
-                out['events'].append(('op', label, 'build:' + err_name(e), peek_counter(session), True, True, 'send'))
+                out['events'].append(('op', label, 'build:' + err_name(e), peek_counter(session), True, True, 'send', (True, True, True)))
                 return
             try:
                 session.send_msg(msg)
             except Exception as e:  # noqa
                 err = err_name(e)
             new = [w for _, w in tr.writes[before:]]
-            out['events'].append(('op', label, outcome(err, new), peek_counter(session), valid, enc, 'send'))
+            out['events'].append(('op', label, outcome(err, new), peek_counter(session), valid, enc, 'send', segs))
 
         for i, spec in enumerate(h['pre']):
             do_send(f'pre {i}', spec)
         # ---- login (the statement's "logon"): the reply is fed once the request is out
         before = len(tr.writes)
-        lmsg, lvalid, lenc = fix_build(h['logon'])
+        lmsg, lvalid, lsegs = fix_build_segments(h['logon'])
+        lenc = all(lsegs)
         task = asyncio.ensure_future(session.login(lmsg))
         await vloop.turns(2)
         new = [w for _, w in tr.writes[before:]]
@@ -689,7 +765,7 @@ def run_fix_history(h):
                 await asyncio.wait_for(task, HB / 4)
             except Exception as e:  # noqa
                 lerr = 'login:' + err_name(e)
-        out['events'].append(('op', 'logon', outcome(lerr, new), peek_counter(session), lvalid, lenc, 'login'))
+        out['events'].append(('op', 'logon', outcome(lerr, new), peek_counter(session), lvalid, lenc, 'login', lsegs))
         out['login_error'] = lerr
         for i, op in enumerate(h['ops']):
             before = len(tr.writes)
@@ -702,7 +778,7 @@ def run_fix_history(h):
                 except Exception as e:  # noqa
                     err = err_name(e)
                 new = [w for _, w in tr.writes[before:]]
-                out['events'].append(('op', i, outcome(err, new), peek_counter(session), True, True, 'hb'))
+                out['events'].append(('op', i, outcome(err, new), peek_counter(session), True, True, 'hb', (True, True, True)))
             elif op[0] == 'advance':
                 await asyncio.sleep(op[1] * HB / 2)
                 for w in [w for _, w in tr.writes[before:]]:
@@ -734,7 +810,7 @@ def fix_oracle(h, out):
     enc_failed = False
     for ev in out['events']:
         if ev[0] == 'op':
-            _, label, outc, cnt, valid, enc, kind = ev
+            _, label, outc, cnt, valid, enc, kind = ev[:7]
             if kind == 'login':
                 started = True
                 counter = q
@@ -816,7 +892,8 @@ def shrink_fix(h, failing):
 
 
 def spec_unencodable(spec):
-    texts = [spec.get('user'), spec.get('f2')] + [g[1] for g in (spec.get('group') or [])]
+    texts = [spec.get('user'), spec.get('f2')] + [g[1] for g in (spec.get('group') or [])] + [g[1] for g in (spec.get('hops') or [])]
+    texts += list((spec.get('hdr') or {}).values()) + list((spec.get('trl') or {}).values())
     return any(isinstance(t, str) and not t.isascii() for t in texts)
 
 
@@ -826,6 +903,7 @@ def strip_unencodable(h):
     h['ops'] = [op for op in h['ops'] if not (op[0] == 'send' and spec_unencodable(op[1]))]
     if spec_unencodable(h['logon']):
         h['logon']['user'] = 'user'
+        h['logon']['hdr'] = {k: v for k, v in h['logon']['hdr'].items() if not (isinstance(v, str) and not v.isascii())}
     return h
 
 
@@ -869,6 +947,20 @@ def check_fix_history(ctx, h, ans_for=None):
         d = fix_compare(h, out, ans)
         if d:
             ctx.disagree('FIX: ' + d, {'kind': 'fix-history', 'history': h})
+        # the same history with every message given segment by segment (Model/SeqSeg.lean: header / body / trailer serialisable)
+        sops = []
+        for ev in out['events']:
+            if ev[0] == 'op':
+                kind, valid, segs = ev[6], ev[4], ev[7]
+                sops.append((['login', h['logon_seq']] if kind == 'login' else [kind]) + [valid] + [bool(x) for x in segs])
+                for name, okay in zip(('header', 'body', 'trailer'), segs):
+                    if not okay:
+                        ctx.count(f'fix-unencodable-{name}' + ('' if valid else '(+rejected)'))
+            else:
+                sops.append(['hb', True, True, True, True])
+        d = fix_compare(h, out, ans_for(f'seq.fixseg {sx(sops)}'))
+        if d:
+            ctx.disagree('FIX (segment-wise model): ' + d, {'kind': 'fix-history', 'history': h})
     return out
 
 
@@ -895,6 +987,16 @@ def witness_history():
     return {'ver': '44', 'logon_seq': 5,
             'logon': {'cls': 'Login', 'user': 'user', 'hdr': {'SenderCompID': 'CLIENT', 'TargetCompID': 'SERVER', 'MsgSeqNum': 5}},
             'pre': [], 'ops': [['send', {'cls': 'Login', 'user': 'café'}], ['send', {'cls': 'Login', 'user': 'user'}]]}
+
+
+def segment_witness_histories():
+    """the histories of Witness/C10Seg.lean (`witnessHeaderGap`, `witnessTrailerGap`) as harness histories"""
+    logon = {'cls': 'Login', 'user': 'user', 'hdr': {'SenderCompID': 'CLIENT', 'TargetCompID': 'SERVER', 'MsgSeqNum': 5}}
+    good = {'cls': 'Wide', 'f1': 1, 'f2': 'ok'}
+    return [{'ver': '44', 'logon_seq': 5, 'logon': logon, 'pre': [],
+             'ops': [['send', {'cls': 'Wide', 'f1': 1, 'f2': 'ok', 'hdr': {'C10OnBehalfOfCompID': 'café'}}], ['send', good]]},
+            {'ver': '44', 'logon_seq': 5, 'logon': logon, 'pre': [],
+             'ops': [['send', {'cls': 'Wide', 'f1': 1, 'f2': 'ok', 'trl': {'C10SignatureText': 'café'}}], ['send', good]]}]
 
 
 # =====================================================================================================================
@@ -959,7 +1061,9 @@ def run(ctx):
     n_srv, n_cli, n_fix = (160, 160, 220) if quick else (2500, 2500, 3500)
     ctx.cov['rule'] = ('histories on real sessions over a fake transport in virtual time: soup server / soup client (login reply '
                        'frames with the sequence field in left-, right-, zero-, NUL-padded and odd spellings, then sends) / FIX '
-                       '(sends before the logon, logon with arbitrary MsgSeqNum, valid / validation-rejected / unencodable sends, '
+                       '(sends before the logon, logon with arbitrary MsgSeqNum, valid / validation-rejected / unencodable sends — the text that '
+                       'cannot be serialised in the body, a body group instance, an application-set header field, a header group instance '
+                       'or the trailer —, '
                        'explicit and timer-driven heartbeats, close); a case is one history, distinct = distinct history')
     asker = Asker(ctx.driver)
     probe_variant(ctx)
@@ -973,6 +1077,16 @@ def run(ctx):
         if w != exp:
             ctx.disagree(f'witness history printed by the driver changed: {w}', {'kind': 'fix-history', 'history': wit})
     run_case(ctx, {'kind': 'fix-history', 'history': wit}, asker)
+    if asker.ok:
+        w = asker.ask('witness C10Seg')
+        exp = ('((login 5 true true true true) (send true false true true) (send true true true true)) '
+               '((login 5 true true true true) (send true true true false) (send true true true true))')
+        if w != exp:
+            ctx.disagree(f'segment witness histories printed by the driver changed: {w}', {'kind': 'fix-history', 'history': wit})
+    for wh in segment_witness_histories():      # Witness/C10Seg.lean: header / trailer is the part that cannot be serialised
+        out = run_case(ctx, {'kind': 'fix-history', 'history': wh}, asker)
+        if out is not None:
+            ctx.count('fix-segment-witness-tags:' + str([tag34(f) for f in out['frames']]))
     # ---- generated histories
     for i in range(n_srv):
         big = (i % 25 == 0)
